@@ -177,6 +177,19 @@ func Generate(genseed uint64, stream string, thorough bool) *Case {
 	c.FindSucc = r.Chance(1, 3)
 
 	switch stream {
+	case "claim":
+		// simultaneous claims: an index over 3 manifests that all list ONE config and ONE layer, the layer 6-8 times;
+		// K = 8, memory stores, no latencies: syncutil.Go spawns up to 8 goroutines for the same descriptor back to
+		// back and all of them call status.Tracker.TryCommit within nanoseconds.  Exactly one may win the claim
+		// (one fetch, one push, one PreCopy / PostCopy per node)
+		c.Root = addClaimFan(r, g)
+		c.Graph = g.Encode()
+		c.Mode, c.Src, c.Dst = "g", "mem", "mem"
+		c.K = common.Pick(r, []int{8, 8, 6, 0})
+		c.MapRoot, c.Platform, c.Mount, c.RefFetch, c.Fast, c.Slow = -1, "", false, false, true, false
+		for k := range set {
+			delete(set, k)
+		}
 	case "platimage":
 		// WithTargetPlatform on an image-manifest root: SelectManifest reads the manifest and its config
 		// blob from the source in the prologue (matching and non-matching platforms, wrong config type)
@@ -484,6 +497,11 @@ func Generate(genseed uint64, stream string, thorough bool) *Case {
 	if c.Mode == "g" && r.Chance(1, 2) {
 		c.OwnLim = true
 	}
+	if stream == "contention" && wideRoot >= 0 && c.K != 1 && r.Chance(1, 2) {
+		// the 8..14 manifests of the wide fan share one config blob: released together from FindSuccessors, up to K of
+		// them claim it (status.Tracker.TryCommit) at the same instant -- the claim must have exactly one winner
+		c.Barrier, c.FindSucc = true, true
+	}
 	if stream == "cbfail" && !c.Slow && c.Mode == "g" && r.Chance(2, 3) {
 		// single-P schedule, (almost) no yields, limiter observed: a goroutine spawned by eg.Go starts only when
 		// its spawner blocks, so a failing PreCopy cancels the group while siblings are spawned but not started
@@ -593,6 +611,42 @@ func addBlobTwin(r *common.Rand, g *dag.Graph) {
 	}
 }
 
+// addClaimFan appends an index over three image manifests that share one config blob and one layer; every manifest
+// lists the layer 6-8 times.  Returns the index.
+func addClaimFan(r *common.Rand, g *dag.Graph) int {
+	desc := func(mt string, bs []byte) ocispec.Descriptor {
+		return ocispec.Descriptor{MediaType: mt, Digest: digest.FromBytes(bs), Size: int64(len(bs))}
+	}
+	cb := []byte(fmt.Sprintf("claim-config-%x", r.U64()))
+	cfg := &dag.Node{ID: len(g.Nodes), Kind: dag.KConfig, Bytes: cb, Desc: desc(ocispec.MediaTypeImageConfig, cb), Subject: -1, TwinOf: -1}
+	g.Nodes = append(g.Nodes, cfg)
+	lb := []byte(fmt.Sprintf("claim-layer-%x", r.U64()))
+	l := &dag.Node{ID: len(g.Nodes), Kind: dag.KBlob, Bytes: lb, Desc: desc(ocispec.MediaTypeImageLayer, lb), Subject: -1, TwinOf: -1}
+	g.Nodes = append(g.Nodes, l)
+	ix := ocispec.Index{MediaType: ocispec.MediaTypeImageIndex}
+	ix.SchemaVersion = 2
+	var members []int
+	for i := 0; i < 3; i++ {
+		m := ocispec.Manifest{MediaType: ocispec.MediaTypeImageManifest, Config: cfg.Desc,
+			Annotations: map[string]string{"verif.claim": fmt.Sprint(i)}}
+		succ := []int{cfg.ID}
+		for k, n := 0, 6+r.Intn(3); k < n; k++ {
+			m.Layers = append(m.Layers, l.Desc)
+			succ = append(succ, l.ID)
+		}
+		m.SchemaVersion = 2
+		bs, _ := json.Marshal(m)
+		im := &dag.Node{ID: len(g.Nodes), Kind: dag.KImage, Subject: -1, TwinOf: -1, Succ: succ, Bytes: bs, Desc: desc(m.MediaType, bs)}
+		g.Nodes = append(g.Nodes, im)
+		members = append(members, im.ID)
+		ix.Manifests = append(ix.Manifests, im.Desc)
+	}
+	bs, _ := json.Marshal(ix)
+	rt := &dag.Node{ID: len(g.Nodes), Kind: dag.KIndex, Subject: -1, TwinOf: -1, Succ: members, Bytes: bs, Desc: desc(ix.MediaType, bs)}
+	g.Nodes = append(g.Nodes, rt)
+	return rt.ID
+}
+
 // addWideFan appends 8..14 image manifests, each over its own fresh layer blob and a shared config, and an
 // index over all of them; returns the index.
 func addWideFan(r *common.Rand, g *dag.Graph) int {
@@ -610,9 +664,18 @@ func addWideFan(r *common.Rand, g *dag.Graph) int {
 		l := &dag.Node{ID: len(g.Nodes), Kind: dag.KBlob, Bytes: lb, Desc: desc(ocispec.MediaTypeImageLayer, lb), Subject: -1, TwinOf: -1}
 		g.Nodes = append(g.Nodes, l)
 		m := ocispec.Manifest{MediaType: ocispec.MediaTypeImageManifest, Config: cfg.Desc, Layers: []ocispec.Descriptor{l.Desc}}
+		succ := []int{cfg.ID, l.ID}
+		if i%2 == 1 {
+			// the same layer listed 3-5 times: syncutil.Go spawns that many goroutines for ONE descriptor back to back,
+			// all of which claim it (status.Tracker.TryCommit) within nanoseconds -- exactly one may win
+			for k, dup := 0, 2+int(lb[len(lb)-1])%3; k < dup; k++ {
+				m.Layers = append(m.Layers, l.Desc)
+				succ = append(succ, l.ID)
+			}
+		}
 		m.SchemaVersion = 2
 		bs, _ := json.Marshal(m)
-		im := &dag.Node{ID: len(g.Nodes), Kind: dag.KImage, Subject: -1, TwinOf: -1, Succ: []int{cfg.ID, l.ID}, Bytes: bs, Desc: desc(m.MediaType, bs)}
+		im := &dag.Node{ID: len(g.Nodes), Kind: dag.KImage, Subject: -1, TwinOf: -1, Succ: succ, Bytes: bs, Desc: desc(m.MediaType, bs)}
 		g.Nodes = append(g.Nodes, im)
 		members = append(members, im.ID)
 		ix.Manifests = append(ix.Manifests, im.Desc)
